@@ -33,7 +33,7 @@ class Melody:
     def __init__(self, notes, nb_bars=1, tags=None):
         from .note import Note
         if isinstance(notes, Note):
-            notes = []
+            notes = [notes]
         self.notes = notes
         self.tags = set(tags) if tags is not None else set()
         self.nb_bars = nb_bars
